@@ -82,7 +82,7 @@ void ExecImpl::op_move_mock(const Op& op) {
   }
   if (id < 0) return;
   bool destroy_old = (op.a[1] & 1) || static_cast<int>(live.size()) >= MAX_MOCKS;
-  MMock nm; nm.id = static_cast<int>(M.mocks.size()); nm.kind = 1;
+  MMock nm; nm.id = static_cast<int>(M.mocks.size()); nm.kind = 1; nm.moved_to = true;
   for (int f = 0; f < NFN; ++f) {
     nm.active[f] = M.mocks[id].active[f]; nm.saturated[f] = M.mocks[id].saturated[f];
     M.mocks[id].active[f].clear(); M.mocks[id].saturated[f].clear();
